@@ -70,6 +70,10 @@ func isRunningMaxPhi(q *ssa.Phi, cand VMatch) (ssa.Value, bool) {
 }
 
 func runC19(p *Prog, r *Report) {
+	if want("C19.15") {
+		// the rebuild keeps every entry the scan counted
+		ruleValidKeyAgreesWithParse(p, r, "C19.15")
+	}
 	if want("C19.14") {
 		// Recover finds damaged blocks through the table iterator's error path (shared with C02.8)
 		ruleIndexedIterator(p, r, "C19.14")
